@@ -146,6 +146,8 @@ type Case struct {
 	// Proc: the page is written with custom tags (<x-inc src=..>, <x-slot name=.. bind=..>) that a
 	// registered NodeProcessor rewrites into include / slot templates before evaluation.
 	Proc bool `json:"proc,omitempty"`
+	// Spell: bit set of equivalent spellings used when the files are written (tmpl_test.go, spell*).
+	Spell int `json:"spell,omitempty"`
 }
 
 // ---------------------------------------------------------------------------------------------
